@@ -93,10 +93,11 @@ func classifyRead(r io.ReadCloser, status int, err error) string {
 }
 
 // cases:
-//   read <m|f|h> <objhex|missing> <off> <len> <n|c|s>  -> ok <hex> | refresh <status> | err <status> | crash
-//   tags <m|f|h> <n> (<mtime_ns> <contenthex>)*         -> classes <i>*  stale <0|1>*   (tag equality classes over the history; whether a
-//                                                         read conditioned on the previous tag was refused after each replacement)
-//   fault <refused|reset|status NNN...>                -> err <status> | refresh <status> | crash
+//
+//	read <m|f|h> <objhex|missing> <off> <len> <n|c|s>  -> ok <hex> | refresh <status> | err <status> | crash
+//	tags <m|f|h> <n> (<mtime_ns> <contenthex>)*         -> classes <i>*  stale <0|1>*   (tag equality classes over the history; whether a
+//	                                                      read conditioned on the previous tag was refused after each replacement)
+//	fault <refused|reset|status NNN...>                -> err <status> | refresh <status> | crash
 func c18run(line string) (string, []string) {
 	c18once.Do(func() { c18orig = newOrigin() })
 	t := newToks(line)
